@@ -2,6 +2,14 @@
 # Regenerates MANIFEST.json from the table below (kept in one place so the manifest stays valid).
 import json, subprocess
 CLAIMED = {
+ "C18": dict(
+   text="The connection-id counter is declared shared/atomic: every plain read or write of it is a failed obligation (the repaired code goes through sync/atomic); WithContext stores exactly the value returned by the atomic increment (so ids are pairwise distinct); AliasContext returns a context carrying exactly its source's id; every logging entry point (Println/Printf/doPrintln/doPrintf) hands exactly one line to the underlying log.Logger on every path (ghost emission counter), for nil contexts, id-carrying objects and context.Context values.",
+   note="The verifier is sequential: uniqueness under concurrency follows from atomicity of the increment (trusted sync/atomic) plus the proved 'stored id = increment result'; whole-line atomicity is log.Logger's (trusted). The text of the prefix (fmt.Sprintf) and Switch/Close racing with loggers are not decided. Trusted: context.WithValue/Value contract, govc, go/ssa, solvers.",
+   design="7/C18"),
+ "C07": dict(
+   text="Zero-annotation panic-freedom obligations (index, slice bounds, nil dereference, make size, division, type assertion, explicit panic) generated for every instruction of the listed decoders and enum helpers, for ANY input bytes and all 256/65536 enum values: aac (Decode, SetASC, ASC codec, all String/ToHz/ToProfile/ToObjectType), flv (demuxer, both packagers, every String/ToHz/OpusToHz/From), avc (NALU/record/sample decoders, String), amf0 scalars and Discovery, rtmp (basic header, message header, payload step, ReadMessage loop, control packet decoders, onMessageArrivated); loops carry termination measures where listed.",
+   note="PARTIAL: not covered - AMF0 containers (recursive interface dispatch), RTMP command packet decoders, websocket frame reader, JWS/JWE/JWK parsing, OCSP, JSON+ reader, and the linear-time bound (no cost accounting). Trusted: govc, go/ssa, solvers.",
+   design="7/C07"),
  "C04": dict(
    text="Ghost lock-set discipline and ordering contracts on the real code: the request is in the transaction table before WriteMessage is called (call-site assertion in WritePacket); every read/write/delete of the table happens with its mutex held (guarded_by obligations at each map access); the mutex is released on every path of WritePacket and parseAMFObject; lookup and delete of a response's transaction happen in one critical section and consume the entry exactly once; frames show the reader API and the writer API share only the guarded table.",
    note="The verifier is sequential: 'no interleaving breaks matching and no data race' follows from these obligations by the standard argument that critical sections of one mutex are totally ordered and that the two APIs' frames are otherwise disjoint (DESIGN 2.4) - that last step is stated, not machine-checked. Map keys of type float64 are compared by bit pattern. Trusted: sync.Mutex model, govc, go/ssa, solvers.",
